@@ -76,7 +76,7 @@ struct CaseResult {
   uint32_t case_mask = 0;
 };
 
-struct OpTrace { bool applicable = false; CallResult got; int forbid_eid = -1; int forbid_nested_eid = -1; int created_eid = -1; };
+struct OpTrace { bool applicable = false; CallResult got; int forbid_eid = -1; std::vector<int> forbid_nested_eids; int created_eid = -1; };   // nested: every forbid hit by a call made inside a side effect or a scoped block
 
 struct ParsedLoc { size_t pos; std::string file; unsigned long line; };
 
@@ -552,7 +552,7 @@ class Interp {
     if (cur < optrace.size()) {
       optrace[cur].got = got;
       if (o.kind == O_CREATE && cres == 0 && !in_composite) optrace[cur].created_eid = eid0;
-      for (auto& xr : x.reports) if (xr.kind == K_FORBIDDEN) { if (x.nested.empty() && !in_composite) optrace[cur].forbid_eid = xr.eid; else optrace[cur].forbid_nested_eid = xr.eid; }
+      for (auto& xr : x.reports) if (xr.kind == K_FORBIDDEN) { if (x.nested.empty() && !in_composite) optrace[cur].forbid_eid = xr.eid; else optrace[cur].forbid_nested_eids.push_back(xr.eid); }
     }
     if (o.kind == O_CALL) {
       res.calls++;
